@@ -505,6 +505,11 @@ def rich_state(rng, ncells=None, allow=None):
                 t += "REACTION_PRESSURE %d\n %s\n" % (c, fmt(rng.choice([1, 3, 10])))
             elif k == "mix":
                 t += "MIX %d\n %d %s\n %d %s\n" % (c, c, fmt(rng.uniform(0.3, 1)), rng.randint(1, c), fmt(rng.uniform(0.1, 0.7)))
+        if "eq" in kinds and "gas" in kinds:
+            # the same gas as a pure phase of fixed fugacity and as a component of the GAS_PHASE of that cell has no unique equilibrium (the manual says
+            # to define a gas in one of the two): the pure-phase line goes
+            t = "\n".join(l for l in t.split("\n") if not (l.startswith(" CO2(g) ") and len(l.split()) == 3)) + ("\n" if not t.endswith("\n") else "")
+            t = t if t.endswith("\n") else t + "\n"
         t += "END\n"
     # run the cells once so that the saved state is a calculated one (arbitrary history)
     if rng.random() < 0.7:
